@@ -315,6 +315,9 @@ def check_C15(A, R, tier):
     rule_shielding(A, R, "R15.2")
     cands = dependency_checks(A)
     rule_comparison_pair(A, R, "R15.4")
+    # R15.6 (= R4.11): a record left under a former multi-output id is found whatever the ids look like - otherwise a textual
+    # difference (the id) makes a consumer run although the comparison would have judged its input unaltered
+    rule_rename_lookup_finds(A, R, "R15.6")
     # R15.5: the cached verdict of a dependency is written only for the dependency that was compared
     vfields = set()
     for b in cands:
@@ -1442,3 +1445,101 @@ def rule_no_positional_pairing_of_id_pieces(A, R, rule):
          detail="%s pairs the ':::'-pieces of two ids position by position; an output inserted in front of the others shifts every "
                 "position and the overlap counts as zero" % (short(bad[0]["fn"]) if bad else ""), site=A.site(bad[0]) if bad else "")
     R.info["positional_pairings_of_pieces"] = n
+
+
+def _overlap_call(t):
+    OVERLAP = ("::intersection", "::contains", "::is_subset", "::is_disjoint", "::difference", "::symmetric_difference")
+    c = M.callee_of(t)
+    nm = (c[1] or c[0]) if c else ""
+    gen = c[0] if c else ""
+    return ("HashSet" in nm or "HashSet" in gen or "BTreeSet" in nm or "BTreeSet" in gen) and any(nm.endswith(x) or gen.endswith(x) for x in OVERLAP)
+
+
+def rename_lookup_fns(A):
+    """the helper the dependency check falls back to when a dependency has no record: a function reachable from the dependency
+    check (closures included) that takes the history map and two ids, returns an Option and itself contains - directly, in a
+    closure or in a small helper - the set comparison of the outputs named in two ids"""
+    from rules_more import call_graph, reachable_from
+    g = call_graph(A)
+    deps = [b.name for b in dependency_checks(A)]
+    reach = reachable_from(g, deps)
+
+    def has_overlap(n, depth=0, seen=None):
+        seen = seen if seen is not None else set()
+        if n in seen or depth > 2:
+            return False
+        seen.add(n)
+        b = A.facts.bodies.get(n)
+        if b is None:
+            return False
+        for blk in b.blocks:
+            if not blk["cleanup"] and blk["term"]["t"]["k"] == "call" and _overlap_call(blk["term"]["t"]):
+                return True
+        return any(has_overlap(m_, depth + 1, seen) for m_ in g.get(n, ()))
+    out = []
+    for n in sorted(reach):
+        cb = A.facts.bodies.get(n)
+        if cb is None or cb.kind not in ("Fn", "AssocFn") or not cb.locals[0]["s"].startswith("std::option::Option<"):
+            continue
+        tys = [cb.locals[i]["s"] for i in range(1, cb.arg_count + 1)]
+        if any("HashMap<std::string::String, std::string::String>" in t_ for t_ in tys) and sum(1 for t_ in tys if t_ == "&str") >= 2 \
+                and has_overlap(n):
+            # the innermost such function: not a wrapper around another candidate
+            out.append(cb)
+    inner = [cb for cb in out if not any(o.name != cb.name and o.name in reachable_from(g, [cb.name]) for o in out)]
+    return inner or out
+
+
+def rule_rename_lookup_finds(A, R, rule):
+    """no fast path switches the rename lookup off: every regular path through the helper passes the scan of the recorded
+    dependencies in which the outputs of a former id are compared with those of the missing id (the loop - or the iterator chain -
+    that contains the overlap computation).  A test in front of it ('is there a separator in this id / anywhere in the history?')
+    that returns 'nothing found' is wrong as soon as the *other* side is the multi-output one."""
+    from rules_more import returns_of, residual_blocks, call_graph, reachable_from
+    g = call_graph(A)
+    fns = rename_lookup_fns(A)
+    R.floor(rule, "rename lookup helpers of the dependency check", len(fns), 1)
+
+    def overlap_fn(n):
+        b = A.facts.bodies.get(n)
+        return b is not None and any(not blk["cleanup"] and blk["term"]["t"]["k"] == "call" and _overlap_call(blk["term"]["t"])
+                                     for blk in b.blocks)
+    for b in fns:
+        helpers = set(n for n in reachable_from(g, [b.name]) if n != b.name and overlap_fn(n))
+
+        def block_scans(blk):
+            """the block performs (or hands a closure / helper that performs) the set comparison"""
+            t = blk["term"]["t"]
+            if blk["cleanup"]:
+                return False
+            if t["k"] == "call":
+                if _overlap_call(t):
+                    return True
+                c = M.callee_of(t)
+                if c and ((c[1] or c[0]) in helpers or any((c[1] or c[0]) in reachable_from(g, [h_]) and False for h_ in ())):
+                    return True
+                if c and any(h_ in reachable_from(g, [(c[1] or c[0])]) for h_ in helpers if A.facts.body(c[1] or c[0]) is not None):
+                    return True
+            for st in blk["stmts"]:
+                if st["k"] == "assign" and st["r"]["k"] == "agg" and "closure" in st["r"]["kind"]:
+                    cn = st["r"]["kind"]["closure"]
+                    if cn in helpers or overlap_fn(cn) or any(h_ in reachable_from(g, [cn]) for h_ in helpers):
+                        return True
+            return False
+        scans = set(blk["i"] for blk in b.blocks if block_scans(blk))
+        points = set()
+        for (_x, h) in b.back_edges():
+            if set(b.natural_loop(h)) & scans:
+                points.add(h)
+        if not points:
+            points = set(scans)
+        R.ob(rule, "%s | the scan that compares the outputs of former ids with the missing one is identified" % short(b.name), bool(points),
+             detail="no loop or iterator chain with a set comparison found", site=b.span["s"])
+        if not points:
+            continue
+        # the outermost scan: a loop / chain that is itself inside another scan loop is not a separate obligation
+        errs = error_exit_blocks(A, b) | residual_blocks(b)
+        bypass = set(returns_of(b)) & b.reachable(0, points | errs)
+        R.ob(rule, "%s | no regular path returns without passing that scan (no fast path in front of it)" % short(b.name), not bypass,
+             detail="a return is reachable around the scan: for such ids / histories a renamed job is never recognised and its consumers "
+                    "are rebuilt", site=b.span["s"])
